@@ -65,7 +65,7 @@ def disc(ctx, fams, flavours):
         def O(clause, ok, why, site=None):
             out.append(Obl('DISC-' + clause, K.q, _w(F, K, site), clause_text[clause], ok, why))
         clause_text = {
-            'i': 'accepted by EXEC before visited test / mark / record / advance / found',
+            'i': 'accepted by EXEC before mark / record / advance / found',
             'ii': 'not-visited edge dominates mark / record / advance / found',
             'iii': 'marked visited on discovery (INSERT dominates ADVANCE, every discovery is marked)',
             'iv': 'discovery edge recorded before advance and before found',
@@ -349,7 +349,9 @@ def frontier(ctx, fams, flavours):
         elif fam in ('Dfs', 'Order'):
             rule = 'DFS1'
             inst = 'LIFO frontier: push(FAR) immediately followed by the recursive call'
-            if adt == 'Vec' and (K.take_m, K.add_m) == ('pop', 'push'):
+            if adt == '<recursion>' and (K.take_m, K.add_m) == ('param', 'recurse'):
+                pass   # implicit stack: the node to expand is a parameter, the recursive call is the push+pop
+            elif adt == 'Vec' and (K.take_m, K.add_m) == ('pop', 'push'):
                 pass
             elif adt == 'VecDeque' and (K.take_m, K.add_m) in (('pop_back', 'push_back'), ('pop_front', 'push_front')):
                 pass
@@ -371,6 +373,8 @@ def frontier(ctx, fams, flavours):
                 for rbi, rt in K.recurse:
                     args = [strip_payload(K.pv.of_operand(a)) for a in rt['args']]
                     exp = [('param', i) for i in range(1, K.b['argc'] + 1)]
+                    if K.node_param is not None:
+                        exp[K.node_param - 1] = K.FAR
                     if args != exp:
                         why.append('recursive call does not pass its own parameters through: ' + ','.join(pretty(a) for a in args))
                 if not cfg.dominates(S['TAKE'], S['NEXT']):
